@@ -28,6 +28,7 @@ func runC16(c *Ctx) {
 	checkCleanupAgreesWithSafe(c)
 	checkEarlyStopIsError(c)
 	checkListingStableAndEventIds(c)
+	checkNoteKindSystemFirst(c)
 }
 
 // R16.1
@@ -1230,4 +1231,63 @@ func errNilEdge(cc controlCond) bool {
 		nilEdge = 0
 	}
 	return cc.Edge == nilEdge
+}
+
+// R16.13: a note written by a user is a comment whatever it says. GitLab reports its own activity
+// ("closed", "changed title from …", "mentioned in commit …") as system notes with fixed texts; the
+// importer recognises those texts — but only on notes GitLab itself marks as system notes.
+func checkNoteKindSystemFirst(c *Ctx) {
+	w := c.W
+	c.Doc("R16.13", "NoteEvent.Kind: every return of a kind other than EventComment is reachable only through the System == true outcome of a test of the note's System flag (the text patterns are never applied to user notes)")
+	fn := w.Method("bridge/gitlab", "NoteEvent", "Kind")
+	if fn == nil {
+		c.Undecided("R16.13", "anchor:NoteEvent.Kind", "bridge/gitlab", "not found")
+		return
+	}
+	c.seeFn(funcName(fn))
+	comment, okK := pkgConstInt(w, "bridge/gitlab", "EventComment")
+	var sysIf *ssa.If
+	sysTrueEdge := 0
+	for _, b := range fn.Blocks {
+		if len(b.Instrs) == 0 {
+			continue
+		}
+		iff, ok := b.Instrs[len(b.Instrs)-1].(*ssa.If)
+		if !ok {
+			continue
+		}
+		cond, neg := iff.Cond, false
+		if u, isU := cond.(*ssa.UnOp); isU && u.Op == token.NOT {
+			cond, neg = u.X, true
+		}
+		if hasField(cond, "System") {
+			sysIf = iff
+			sysTrueEdge = 0
+			if neg {
+				sysTrueEdge = 1
+			}
+			break
+		}
+	}
+	if sysIf == nil || !okK {
+		c.Check(false, "R16.13", "NoteEvent.Kind:patterns-only-on-system-notes", w.FnPos(fn), "", "no test of the note's System flag found in NoteEvent.Kind: the system-note texts are matched against what users write")
+		return
+	}
+	bad, n := "", 0
+	for _, r := range Returns(fn) {
+		if len(r.Results) != 1 {
+			continue
+		}
+		k, isK := constInt(ReturnResult(r, 0))
+		if isK && k == comment {
+			continue
+		}
+		n++
+		c.Sites++
+		if !edgeDominates(sysIf.Block(), sysTrueEdge, r.Block()) {
+			bad = "the kind returned at " + w.InstrPos(r) + " can be answered for a note that is not a system note"
+		}
+	}
+	c.Check(bad == "" && n >= 5, "R16.13", "NoteEvent.Kind:patterns-only-on-system-notes", w.FnPos(fn), fmt.Sprintf("%d non-comment kinds, all behind System == true", n),
+		bad+": a user comment that reads 'closed' closes the bug, one starting with 'mentioned in commit' is dropped, one starting with 'changed title from' renames the bug or panics")
 }
